@@ -316,3 +316,40 @@ package object
 //@ func object.WithZeroFromSelf$1(o)
 //@   requires o != nil && f != nil
 //@   assigns  o
+//
+// ---- C01: well-formedness of values (type invariants) ----------------------------------------
+// Assumed of every object that comes from outside the current activation; proved, at every return, of
+// every object the activation allocated itself.
+//@ invariant object.PanObj: self.Pairs != nil && *self.Pairs != nil && self.Keys != nil && self.PrivateKeys != nil
+//@ invariant object.PanMap: self.Pairs != nil && *self.Pairs != nil && self.HashKeys != nil && self.NonHashablePairs != nil
+//@ invariant object.PanRange: isVal(self.Start) && isVal(self.Stop) && isVal(self.Step)
+//@ invariant object.PanBuiltIn: self.Fn != nil
+//@ invariant object.PanBuiltInIter: self.Fn != nil && self.Env != nil
+//@ invariant object.PanFunc: self.FuncWrapper != nil && self.Env != nil
+//@ invariant object.Env: self.Store != nil
+//@ invariant object.Pair: isVal(self.Key) && isVal(self.Value)
+//@ invariant object.PanInt: self.proto == nil || isVal(self.proto)
+//@ invariant object.PanStr: self.proto == nil || isVal(self.proto)
+//@ invariant object.PanArr: self.proto == nil || isVal(self.proto)
+//@ invariant object.PanFloat: self.proto == nil || isVal(self.proto)
+//@ invariant object.PanNil: self.proto == nil || isVal(self.proto)
+//@ invariant object.PanErr: self.proto == nil || isVal(self.proto)
+// Every function of these packages whose single result is object.PanObject returns a value (never nil,
+// never a DeferObj/ReturnObj/YieldObj carrier): assumed at calls, proved at every return (WF.result).
+//@ valueresults: props
+//
+//@ props C01 C05 C06
+//@ func object.ChildPanObjPtr(proto, src, options) res
+//@   requires src != nil && src.Pairs != nil && src.Keys != nil && src.PrivateKeys != nil
+//@   requires forall i int :: {options[i]} 0 <= i && i < len(options) ==> options[i] != nil
+//@   ensures  res != nil && fresh(res) && res.proto == proto && res.Pairs == src.Pairs && res.Keys == src.Keys && res.PrivateKeys == src.PrivateKeys
+//@   assigns  nothing
+//
+//@ func object.NewPanObj(pairs, proto, options) res
+//@   requires pairs != nil && *pairs != nil
+//@   requires forall i int :: {options[i]} 0 <= i && i < len(options) ==> options[i] != nil
+//@   ensures  res != nil && fresh(res) && res.proto == proto && res.Pairs == pairs && res.Keys != nil && res.PrivateKeys != nil
+//@   assigns  nothing
+//
+// a function object wraps the evaluator's code wrapper (never another PanFunc)
+//@ invariant object.PanFunc: isT(self.FuncWrapper, *evaluator.FuncWrapperImpl)
